@@ -339,8 +339,82 @@ def body_region_change(env):
             env.eq('new cell %d starts at the mixed mean' % i, new.temp['coolant_int'][i], Tmix, tol=1e-9)
 
 
+def body_clone_flow(env):
+    """Regions obtained through the real clone(new_flowrate) -- the way every assembly of a Reactor gets its regions: the
+    flows the coolant update divides the heat by add up to the new flow rate (six-node: six equal node flows; pin bundle:
+    interior + bypass, and the subchannel flows of the interior).  Enumeration of region kinds and two flow rates; no
+    symbolic dimension (the flow-split set-up is not symbolic)."""
+    from symx import fixtures
+    kind = env.params['kind']
+    for m in (1.7, 0.45):
+        if kind[0] == 'rodded':
+            t = fixtures.make_rodded(2, kind[1], byp_ff=0.05 if kind[1] > 1 else None)
+        else:
+            t = fixtures.make_unrodded(kind[0], fr=-1.0)
+        c = t.clone(new_flowrate=m)
+        if kind[0] == 'rodded':
+            tot = float(c.int_flow_rate) + (float(np.sum(c.byp_flow_rate)) if kind[1] > 1 else 0.0)
+            env.holds('clone to %g kg/s: interior + bypass flow = new flow rate' % m, abs(tot - m) <= 1e-12 * m, key='clone_keeps_a_stale_flow')
+            typ = np.asarray(c.subchannel.type[:c.subchannel.n_sc['coolant']['total']], dtype=int)
+            w = np.asarray(c.coolant_int_params['fs'], dtype=float)[typ] * np.asarray(c.params['area'], dtype=float)[typ]
+            env.holds('clone to %g kg/s: flow split weights are those of the new state (finite, positive)' % m, bool(np.all(np.isfinite(w)) and np.all(w > 0)))
+        elif kind[0] == '6node':
+            env.holds('clone to %g kg/s: six node flows add up to the new flow rate' % m, abs(6 * float(c._scfr) - m) <= 1e-12 * m,
+                      key='clone_keeps_a_stale_flow')
+            env.holds('clone to %g kg/s: region flow rate is the new one' % m, float(c.flow_rate) == m, key='clone_keeps_a_stale_flow')
+        else:
+            env.holds('clone to %g kg/s: region flow rate is the new one' % m, float(c.flow_rate) == m, key='clone_keeps_a_stale_flow')
+        env.holds('clone to %g kg/s: the template keeps its own flow' % m,
+                  float(getattr(t, 'flow_rate', getattr(t, 'total_flow_rate', 0.0))) != m)
+
+
+def body_sweep_balance(env):
+    """Public path, adiabatic outer wall, constant-property coolant (enumeration; no symbolic dimension): over a real sweep the
+    enthalpy flow gained by the interior and bypass coolant of an assembly equals the power delivered to it -- also with the
+    low-flow wall approximation engaged.  1e-9 relative.  Duct-wall heating is included only with the approximation off: with
+    it on, a heated wall is coupled to the coolant through its mid-wall temperature and the sweep balance is open by about 1 %
+    of the power (measured; DESIGN section 5, observations) -- C01 speaks of the heat the coolant receives, which closes by tally."""
+    import os
+    import shutil
+    import tempfile
+    from symx import geninp, npshim
+    import dassh
+    from harness import symcore as SC
+    d = tempfile.mkdtemp(prefix='dassh-verif-c01.')
+    try:
+        asms = {t: geninp.default_asm(**SC.TYPES[t]) for t in env.params['types']}
+        assign = [(t, 1 if i == 0 else 2, 1 if i == 0 else i, 'FLOWRATE=%g' % (0.3 + 0.05 * i)) for i, t in enumerate(env.params['types'])]
+        setup = ('conv_approx = True', 'conv_approx_dz_cutoff = 0.01') if env.params['conv_approx'] else ()
+        inp = geninp.write_case(d, asms, assign, gap_model='none', core_len=0.05, setup_lines=setup, other_power=env.params.get('other_power', 0.0),
+                                pin_power=lambda k: 3.0e4 * (1 + 0.1 * k))
+        with npshim.unpatched():
+            r = dassh.Reactor(dassh.DASSH_Input(inp), path=os.path.join(d, 'out'), write_output=False)
+            engaged = [bool(getattr(a.rodded, '_conv_approx', False)) if a.has_rodded else None for a in r.assemblies]
+            r.temperature_sweep()
+            res = []
+            for a in r.assemblies:
+                reg = a.active_region
+                cp = float(reg.coolant.heat_capacity)
+                gain = float(a.flow_rate) * cp * (float(a.avg_coolant_temp) - float(r.inlet_temp))
+                power = float(sum(v for v in a._power_delivered.values()))
+                res.append((a.id, a.name, gain, power))
+    finally:
+        shutil.rmtree(d, ignore_errors=True)
+    if env.params['conv_approx'] and 'dd' in env.params['types']:
+        env.holds('fixture: the low-flow wall approximation is engaged in at least one pin bundle', any(e for e in engaged if e is not None))
+    for aid, nm, gain, power in res:
+        env.holds('assembly %d (%s): enthalpy flow gained over the sweep = power delivered (1e-9 relative)' % (aid, nm),
+                  abs(gain - power) <= 1e-9 * power, key='sweep_balance_open')
+
+
 def instances(tier):
     inst = []
+    for types in (('a2', 'a3'), ('dd', 'a3'), ('dd', 'ur', 'u6')):
+        for ca in (False, True):
+            inst.append(dict(label='sweep-balance[%s,adiabatic,low-flow wall approximation=%s]' % ('-'.join(types), ca), body=body_sweep_balance,
+                             params={'types': types, 'conv_approx': ca, 'other_power': 0.0 if ca else 400.0}, check_vacuity=False))
+    for kind in (('simple',), ('6node',), ('rodded', 1), ('rodded', 2)):
+        inst.append(dict(label='clone-flow[%s]' % '-'.join(map(str, kind)), body=body_clone_flow, params={'kind': kind}, check_vacuity=False))
     # single-identity form: small bundles only (cross-check of the decomposed form)
     for n in ((2,) if tier == 'quick' else (2, 3)):
         for nduct in (1, 2):
